@@ -398,6 +398,12 @@ def call_tree(f, t, nm, args):
         sub = _subst_free(body, "a2", args[0])
         if sub != body and not re.search(r"(?<![\w.])a[3-9](?![\w])", body):
             return sub          # (a closure that was not inlined - depth bound - shows its captures only and is left alone)
+    if nm == "map_or" and len(args) == 3 and args[2].startswith("closure{") and args[2].endswith("}") and _operand_adt(f, t["args"][0]) in _WRAP_ADTS:
+        # opt.map_or(d, |x| body(x)) == opt.map(|x| body(x)).unwrap_or(d): phi(d | body(payload))
+        body = args[2][len("closure{"):-1]
+        sub = _subst_free(body, "a2", args[0])
+        if sub != body and not re.search(r"(?<![\w.])a[3-9](?![\w])", body):
+            return "phi(%s)" % "|".join(sorted({_unwrap_arg(args[1]), sub}))
     return mk_call(nm, args)
 
 
@@ -495,11 +501,25 @@ def _unwrap_arg(a):
     return a
 
 
+def _is_const_tree(a):
+    return bool(re.fullmatch(r"-?\d+|[A-Z][A-Z0-9_]*|const|promoted|from_num\(-?\d+\)", a))
+
+
 def mk_call(nm, args):
     """name(args) with commutative arguments sorted and associative nests flattened"""
     args = [_unwrap_arg(a) for a in args]
     if nm == "clamp" and len(args) == 3:
         return mk_call("min", [mk_call("max", [args[0], args[1]]), args[2]])      # x.clamp(lo, hi) == x.max(lo).min(hi) for lo <= hi
+    if nm == "max" and len(args) == 2:
+        # x.min(hi).max(lo) == x.max(lo).min(hi) when lo <= hi: with both bounds constant the two nestings are one clamp
+        for i in (0, 1):
+            sc = split_call(args[i])
+            lo = args[1 - i]
+            if sc and sc[0] == "min" and len(sc[1]) == 2 and _is_const_tree(lo):
+                his = [a for a in sc[1] if _is_const_tree(a)]
+                xs = [a for a in sc[1] if not _is_const_tree(a)]
+                if len(his) == 1 and len(xs) == 1:
+                    return mk_call("min", [mk_call("max", [xs[0], lo]), his[0]])
     if nm in ("gt", "ge") and len(args) == 2:
         nm, args = ("lt" if nm == "gt" else "le"), [args[1], args[0]]      # one spelling per relation
     if nm in ASSOCIATIVE:
@@ -761,7 +781,12 @@ def switch_cond(prog, f, sw, arm):
     t = f.blocks[sw]["t"]
     tree = expr_tree(prog, f, t["on"], inline=_COND_INLINE)
     p = op_place(t["on"])
-    isbool = p is not None and not p.get("p") and f.local_ty(p["l"])["s"] == "bool"
+    isbool = False
+    try:
+        if p is not None:
+            isbool = ((f.ty(p["t"]) if (p.get("p") and "t" in p) else f.local_ty(p["l"])).get("s") == "bool")
+    except Exception:
+        isbool = False
     arms = [int(a) for a, _ in t["arms"]]
     if isbool:
         if arm == "else":
@@ -1009,6 +1034,43 @@ def store_trees(prog, f, inline=0):
     return {k: sorted(v) for k, v in out.items()}
 
 
+def _whole_store_fields(prog, f, v, inline):
+    """{field name: value tree} when rvalue v is a struct literal, or the result of a parameterless constructor of the analysed crates
+    whose body is a struct literal of constants; None otherwise"""
+    def of_agg(g, a):
+        if a.get("r") == "agg" and a.get("ak") == "adt" and a.get("fields") and len(a["fields"]) == len(a["a"]):
+            return {n: expr_tree(prog, g, o, inline=inline) for n, o in zip(a["fields"], a["a"])}
+        return None
+    r = of_agg(f, v)
+    if r is not None:
+        return r
+    if v.get("r") != "use":
+        return None
+    pl = op_place(v["a"][0])
+    if pl is None or pl.get("p"):
+        return None
+    defs = f.local_defs().get(pl["l"]) or []
+    if len(defs) != 1:
+        return None
+    bi, si = defs[0]
+    if si == "T":
+        t = f.blocks[bi]["t"]
+        if t["k"] != "call" or t["args"]:
+            return None
+        ci = f.dinfo(t["res"]) if t.get("res") is not None else (f.dinfo(t["raw"]) if "raw" in t else None)
+        g = prog.fns.get(ci["key"]) if ci else None
+        if g is None or g.argc != 0:
+            return None
+        aggs = [s_["v"] for bb in g.blocks for s_ in bb["s"] if "d" in s_ and s_["d"]["l"] == 0 and not s_["d"].get("p")]
+        if len(aggs) != 1:
+            return None
+        r = of_agg(g, aggs[0])
+        if r is None or any(re.search(r"(?<![\w.])p\d", t_) for t_ in r.values()):
+            return None
+        return r
+    return of_agg(f, f.blocks[bi]["s"][si]["v"])
+
+
 def effect_paths(prog, f, limit=256, inline=0, probes=None):
     """for a small loop-free function: [(sorted conds, return tree, {place: stored tree})] per feasible entry->return path"""
     out = []
@@ -1032,7 +1094,18 @@ def effect_paths(prog, f, limit=256, inline=0, probes=None):
                     elif d.get("p"):
                         dst = expr_tree(prog, f, {"c": d}, inline=inline)
                         if re.match(r"p\d+[.\[]", dst):
-                            stores[dst] = rvalue_tree(prog, f, v, inline=inline)
+                            if not re.search(r"\._pad\w*$", dst):          # padding carries no meaning
+                                stores[dst] = rvalue_tree(prog, f, v, inline=inline)
+                        elif re.fullmatch(r"p\d+", dst):
+                            # whole-value store through a reference parameter (`*self = Self::empty()` / `*self = Self { .. }`): the same
+                            # effect as assigning every field, and rendered like that when the value is a literal aggregate
+                            fl = _whole_store_fields(prog, f, v, inline)
+                            if fl is not None:
+                                for n_, t_ in fl.items():
+                                    if not n_.startswith("_pad"):
+                                        stores["%s.%s" % (dst, n_)] = t_
+                            else:
+                                stores[dst] = rvalue_tree(prog, f, v, inline=inline)
                 t = f.blocks[b]["t"]
                 if t["k"] == "call" and t["dest"]["l"] == 0 and not t["dest"].get("p"):
                     ci = f.dinfo(t["res"]) if t.get("res") is not None else (f.dinfo(t["raw"]) if "raw" in t else None)
